@@ -12,6 +12,7 @@ package main
 // LoadCheckpoint copies the files back, and the history continues on new operators (same or different count).
 
 import (
+	"context"
 	"encoding/json"
 	"fmt"
 	"io"
@@ -25,6 +26,7 @@ import (
 	"time"
 
 	"reduction.dev/reduction/connectors"
+	"reduction.dev/reduction/jobs"
 	"reduction.dev/reduction/proto/jobpb"
 	"reduction.dev/reduction/proto/snapshotpb"
 	"reduction.dev/reduction/storage/locations"
@@ -199,7 +201,12 @@ func (cl *cluster) savepointRestart(o op, tags map[string]bool, tableIDs map[str
 	for i, a := range cl.ops {
 		opIDs[i] = a.id
 	}
-	// --- request the savepoint, alone or while a periodic checkpoint is pending
+	// --- request the savepoint through the REAL Job.HandleCreateSavepoint, alone or while a periodic checkpoint is
+	// pending (the harness plays the ticker: Store.CreateCheckpoint + Assembly.StartCheckpoint, as jobs/job.go does)
+	ctx := context.Background()
+	job := jobs.VerifNewRunningJob(js.store, cl.asm, js.errs)
+	cl.sr.take()
+	counterAtStart := js.counter
 	counterBefore := js.counter
 	var pendingID uint64
 	if o.Fold {
@@ -207,14 +214,24 @@ func (cl *cluster) savepointRestart(o op, tags map[string]bool, tableIDs map[str
 		if err != nil {
 			return "", nil, false, fmt.Errorf("CreateCheckpoint: %v", err)
 		}
+		if err := cl.asm.StartCheckpoint(ctx, id); err != nil {
+			return "", nil, false, fmt.Errorf("StartCheckpoint: %v", err)
+		}
 		pendingID, counterBefore = id, id
 		tags["savepoint-folded"] = true
 	}
-	id, created, serr := js.store.CreateSavepoint(opIDs, []string{"sr0"})
+	id, serr := job.HandleCreateSavepoint(ctx)
 	if serr != nil {
-		return "", nil, false, fmt.Errorf("CreateSavepoint: %v", serr)
+		return "", nil, false, fmt.Errorf("HandleCreateSavepoint: %v", serr)
 	}
+	created := !(o.Fold && id == pendingID) // observable: the request answered with the id of the checkpoint in progress
 	js.counter = id
+	starts := cl.sr.take()
+	ss := make([]string, len(starts))
+	for i, x := range starts {
+		ss[i] = fmt.Sprint(x)
+	}
+	*terms = append(*terms, fmt.Sprintf("SSave (SpStarts %s %d %s)", hx.CoqBool(o.Fold), counterAtStart, hx.CoqList(ss, "N")))
 	if o.Late {
 		js.loc.arm()
 		tags["later-dkv-checkpoint-before-copy"] = true
@@ -224,12 +241,12 @@ func (cl *cluster) savepointRestart(o op, tags map[string]bool, tableIDs map[str
 		return "", nil, false, err
 	}
 	perm := normPerm(o.Perm, len(acks))
-	if err := js.store.AddSourceSnapshot(&jobpb.SourceRunnerCheckpointCompleteRequest{CheckpointId: id, SourceRunnerId: "sr0"}); err != nil {
-		return "", nil, false, fmt.Errorf("AddSourceSnapshot: %v", err)
+	if err := job.HandleSourceRunnerCheckpointComplete(ctx, &jobpb.SourceRunnerCheckpointCompleteRequest{CheckpointId: id, SourceRunnerId: "sr0"}); err != nil {
+		return "", nil, false, fmt.Errorf("HandleSourceRunnerCheckpointComplete: %v", err)
 	}
 	for _, p := range perm {
-		if err := js.store.AddOperatorSnapshot(acks[p]); err != nil {
-			return "", nil, false, fmt.Errorf("AddOperatorSnapshot: %v", err)
+		if err := job.HandleOperatorCheckpointComplete(ctx, acks[p]); err != nil {
+			return "", nil, false, fmt.Errorf("HandleOperatorCheckpointComplete: %v", err)
 		}
 	}
 	// the store's counter is observed through the id of the next checkpoint it hands out
